@@ -300,14 +300,13 @@ namespace ratio
                                        { return lra_th.lb(ae->l) != lra_th.ub(ae->l); });
             var_it != xprs.cend())
         {
-            arith_expr c_xpr = *var_it;
-            lin l = c_xpr->l;
-            for (const auto &xpr : xprs)
-                if (xpr != c_xpr)
+            lin l = (*var_it)->l;
+            for (auto it = xprs.cbegin(); it != xprs.cend(); ++it)
+                if (it != var_it) // every other factor, the same item appearing again included..
                 {
-                    assert(lra_th.lb(xpr->l) == lra_th.ub(xpr->l) && "non-linear expression..");
-                    assert(lra_th.value(xpr->l).get_infinitesimal() == rational::ZERO);
-                    l *= lra_th.value(xpr->l).get_rational();
+                    assert(lra_th.lb((*it)->l) == lra_th.ub((*it)->l) && "non-linear expression..");
+                    assert(lra_th.value((*it)->l).get_infinitesimal() == rational::ZERO);
+                    l *= lra_th.value((*it)->l).get_rational();
                 }
             return new arith_item(*this, get_type(xprs), l);
         }
